@@ -187,9 +187,15 @@ func lanesOf(v *aval, w int) []laneSrc {
 		if vw%8 != 0 {
 			return nil
 		}
-		if v.a == 0 && v.b.Sign() == 0 {
-			for i := 0; i < vw/8; i++ {
-				src = append(src, laneSrc{zero: true})
+		if v.a == 0 {
+			// a constant word: each byte is a constant of its own
+			for k := vw/8 - 1; k >= 0; k-- {
+				bv := new(big.Int).And(new(big.Int).Rsh(v.b, uint(8*k)), big.NewInt(0xff))
+				if bv.Sign() == 0 {
+					src = append(src, laneSrc{zero: true})
+				} else {
+					src = append(src, laneSrc{word: constWord(8, bv), k: 0})
+				}
 			}
 		} else {
 			vv := v
@@ -219,6 +225,22 @@ func (it *codecInterp) canonLanes(l []laneSrc, w int) *aval {
 	}
 	if z == len(l) {
 		return constWord(w, new(big.Int))
+	}
+	// constant bytes only: the constant word
+	allConst := true
+	val := new(big.Int)
+	for _, ln := range l {
+		val.Lsh(val, 8)
+		switch {
+		case ln.zero:
+		case ln.word != nil && ln.word.kind == avWord && ln.word.a == 0 && ln.word.w == 8 && ln.k == 0:
+			val.Or(val, ln.word.b)
+		default:
+			allConst = false
+		}
+	}
+	if allConst {
+		return constWord(w, val)
 	}
 	rest := l[z:]
 	W := rest[0].word
@@ -250,6 +272,9 @@ func bytesLanes(v *aval) ([]laneSrc, []bool) {
 	if v.lanes != nil {
 		return v.lanes, v.set
 	}
+	if v.blen < 0 || v.blen > 64 {
+		return nil, nil // a length the byte model does not follow
+	}
 	out := make([]laneSrc, n)
 	set := make([]bool, n)
 	if v.word == nil {
@@ -261,8 +286,14 @@ func bytesLanes(v *aval) ([]laneSrc, []bool) {
 			k = i
 		}
 		out[i] = laneSrc{word: v.word, k: k}
-		if v.word.a == 0 && v.word.b.Sign() == 0 {
-			out[i] = laneSrc{zero: true}
+		if v.word.a == 0 {
+			// a constant word: the byte is a constant of its own
+			bv := new(big.Int).And(new(big.Int).Rsh(v.word.b, uint(8*k)), big.NewInt(0xff))
+			if bv.Sign() == 0 {
+				out[i] = laneSrc{zero: true}
+			} else {
+				out[i] = laneSrc{word: constWord(8, bv), k: 0}
+			}
 		}
 		set[i] = true
 	}
@@ -361,6 +392,7 @@ type codecInterp struct {
 	cl      *keyClass
 	keyV    *types.Var // the key parameter (Transform)
 	paths   int
+	defect  string // a defect the interpreter saw on the way (decided, whatever else it could follow)
 	fail    string // first reason the interpreter gave up
 	depth   int
 	tparams map[*types.TypeParam]types.Type // type parameters of inlined generic helpers
@@ -739,7 +771,7 @@ func (it *codecInterp) eval(e ast.Expr, st *istate) *aval {
 			if okB && lo == 0 && hi == v.blen {
 				return v
 			}
-			if okB && 0 <= lo && lo <= hi && hi <= v.blen {
+			if okB && 0 <= lo && lo <= hi && hi <= v.blen && hi <= 64 {
 				lanes, set := bytesLanes(v)
 				return it.canonBytes(append([]laneSrc(nil), lanes[lo:hi]...), append([]bool(nil), set[lo:hi]...))
 			}
@@ -957,6 +989,9 @@ func (it *codecInterp) bitop(op token.Token, l, r *aval) *aval {
 // reinterpret: the bits of src (of static type from) read through type to.
 func (it *codecInterp) reinterpret(src *aval, from, to types.Type) *aval {
 	fw, tw := it.bitsOf(from), it.bitsOf(to)
+	if fw != tw && fw != 0 && tw != 0 && it.defect == "" {
+		it.defect = fmt.Sprintf("a %d-bit value is reinterpreted through unsafe.Pointer as a %d-bit one: only part of the word is read (which part depends on the byte order of the machine), or memory beyond it", fw, tw)
+	}
 	if fw != tw || fw == 0 {
 		return it.giveUp("reinterpretation between %d and %d bits", fw, tw)
 	}
@@ -1195,6 +1230,20 @@ func (it *codecInterp) call(x *ast.CallExpr, st *istate) *aval {
 			if basicOf(to) != nil && basicOf(to).Info()&types.IsInteger != 0 {
 				tw := it.bitsOf(to)
 				if tw > v.w && !isUnsignedInt(from) {
+					// the low bytes of one wider word that depends on the key, widened again: what was
+					// cut off does not come back (int(int32(word64)) on a 64-bit int)
+					if len(v.lanes) > 0 && it.defect == "" {
+						W0 := v.lanes[0].word
+						one := W0 != nil && W0.kind == avWord && W0.a != 0 && W0.w > v.w
+						for i, ln := range v.lanes {
+							if ln.zero || ln.word == nil || ln.word.String() != W0.String() || ln.word.w != W0.w || ln.k != len(v.lanes)-1-i {
+								one = false
+							}
+						}
+						if one {
+							it.defect = fmt.Sprintf("a %d-bit word that depends on the key is cut to its low %d bits and widened again to %d: the upper %d bits do not come back, so only keys that fit %d bits keep their value", W0.w, v.w, tw, W0.w-v.w, v.w)
+						}
+					}
 					return it.giveUp("sign extension of %s", v)
 				}
 				if ll := lanesOf(v, tw); ll != nil {
@@ -1320,7 +1369,7 @@ func (it *codecInterp) call(x *ast.CallExpr, st *istate) *aval {
 	}
 	if isBuiltinCall(info, x, "make") && len(x.Args) >= 2 {
 		n := arg(1)
-		if n.kind == avWord && n.a == 0 && n.b.IsInt64() && n.b.Int64() <= 64 {
+		if n.kind == avWord && n.a == 0 && n.b.IsInt64() && n.b.Int64() >= 0 && n.b.Int64() <= 64 {
 			// make zeroes the bytes
 			k := int(n.b.Int64())
 			lanes, set := make([]laneSrc, k), make([]bool, k)
@@ -1564,7 +1613,7 @@ func (it *codecInterp) assign(st *istate, lhs ast.Expr, v *aval) {
 				case v.kind == avLanes && len(v.lanes) == 1:
 					ln = v.lanes
 				}
-				if ln != nil && i >= 0 && i < cur.blen {
+				if ln != nil && i >= 0 && i < cur.blen && cur.blen <= 64 {
 					lanes, set := bytesLanes(cur)
 					lanes, set = append([]laneSrc(nil), lanes...), append([]bool(nil), set...)
 					lanes[i], set[i] = ln[0], true
@@ -2101,6 +2150,9 @@ func (c *Ctx) interpretCodecArm(tu, ru *FuncUnit, term types.Type) codecVerdict 
 				work = append([]*keyClass{a, b}, work...)
 				continue
 			}
+			if it.defect != "" {
+				return codecVerdict{decided: true, detail: "Transform on class " + cl.name + ": " + it.defect}
+			}
 			return codecVerdict{unknown: "Transform on class " + cl.name + ": " + it.fail}
 		}
 		for _, o := range outs {
@@ -2234,6 +2286,9 @@ func (c *Ctx) interpretCodecArm(tu, ru *FuncUnit, term types.Type) codecVerdict 
 		encText := enc.String()
 		st := &istate{env: map[*types.Var]*aval{bv: enc}}
 		outs := it.execList(ru.Body.List, []*istate{st})
+		if it.defect != "" {
+			return codecVerdict{decided: true, detail: "Restore on the code of " + where(r) + ": " + it.defect}
+		}
 		for _, o := range outs {
 			if cur := o.env[bv]; it.fail == "" && cur != nil && cur.kind == avBytes && cur.String() != encText && !assignedAnywhere(info, ru.Body, bv) {
 				return codecVerdict{decided: true, detail: fmt.Sprintf("Restore stores into the encoding it is given (on the code of %s the bytes %s become %s): the bytes are the stored key of a leaf, so decoding the same key again yields another value and the stored key no longer sorts where it was inserted", where(r), encText, cur)}
